@@ -220,14 +220,21 @@ impl Execution {
         if !self.threads.is_active() {
             let terminal = self.threads.iter().all(|(_, th)| th.is_terminated());
 
-            assert!(
-                terminal,
-                "deadlock; threads = {:?}",
-                self.threads
+            if !terminal {
+                let states = self
+                    .threads
                     .iter()
-                    .map(|(i, th)| { (i, th.state) })
-                    .collect::<Vec<_>>()
-            );
+                    .map(|(i, th)| (i, th.state))
+                    .collect::<Vec<_>>();
+
+                // The panic unwinds the thread that ran last. Destructors on
+                // its stack may use loom objects, which takes an active,
+                // runnable thread.
+                self.threads.set_active(Some(curr_thread));
+                self.threads.active_mut().set_runnable();
+
+                panic!("deadlock; threads = {:?}", states);
+            }
 
             return true;
         }
